@@ -15,6 +15,7 @@ import (
 	"github.com/alephium/wormhole-fork/node/pkg/common"
 	"github.com/alephium/wormhole-fork/node/pkg/db"
 	gossipv1 "github.com/alephium/wormhole-fork/node/pkg/proto/gossip/v1"
+	"github.com/alephium/wormhole-fork/node/pkg/vaa"
 	ethcommon "github.com/ethereum/go-ethereum/common"
 	"verif/harness/node/internal/proc"
 	"verif/harness/node/internal/vlib"
@@ -36,6 +37,7 @@ type entry struct {
 	retrans  []int64 // logical times of retransmissions
 	requests int
 	gone     int64 // logical time at which it was first seen absent (-1: still present)
+	injected bool  // signed through a governance injection (no originating transaction)
 }
 
 var r *vlib.Run
@@ -111,7 +113,30 @@ func runScenario(rng *rand.Rand, store *db.Database, serial uint64, long bool, s
 				}
 			}
 		}
+		if kind == "pending" && !long && rng.Intn(3) == 0 {
+			// the node's own signature can also stem from an operator's governance injection: no chain transaction behind it,
+			// same retry budget ("a message the node has signed")
+			mp := *m.Pub
+			mp.EmitterChain, mp.EmitterAddress, mp.TxHash = proc.GovChain, proc.GovEmitter, ethcommon.Hash{}
+			m = proc.NewMsg(&mp)
+			e.msg, e.digest, e.injected = m, hex.EncodeToString(m.Digest), true
+			v := &vaa.VAA{Version: 1, GuardianSetIndex: g.Index, Timestamp: mp.Timestamp, Nonce: mp.Nonce, Sequence: mp.Sequence, ConsistencyLevel: mp.ConsistencyLevel,
+				EmitterChain: mp.EmitterChain, EmitterAddress: mp.EmitterAddress, TargetChain: mp.TargetChain, Payload: mp.Payload}
+			rig.P.VerifHandleInjection(rig.Ctx, v)
+			for _, o := range rig.DrainSend() {
+				if o.Kind == "obs" {
+					e.ownBytes = o.Raw
+					if lb := rig.TakeLoopback(5 * time.Second); lb != nil {
+						rig.P.VerifHandleObservation(rig.Ctx, lb)
+					}
+				}
+			}
+			r.Count("entries_pending_injected", 1)
+			kind = "pending-injected"
+		}
 		switch kind {
+		case "pending-injected":
+			kind = "pending"
 		case "pending":
 			deliverOwn()
 			if rng.Intn(2) == 0 { // one peer signature, still below quorum
@@ -310,7 +335,7 @@ func runScenario(rng *rand.Rand, store *db.Database, serial uint64, long bool, s
 					r.Violation("first-retransmission-before-5min", witness(e, nil))
 				}
 				e.retrans = append(e.retrans, T)
-				if !fillReq && reqCap > 0 && nreq == 0 && len(reqs) < reqCap {
+				if !e.injected && !fillReq && reqCap > 0 && nreq == 0 && len(reqs) < reqCap {
 					r.Violation("retransmission-without-reobservation-request", witness(e, map[string]interface{}{"requests_in_tick": len(reqs)}))
 				}
 				if nreq > 0 {
